@@ -340,3 +340,43 @@ Proof.
     + apply Forall_forall. intros c Hc. apply where_eq_range in Hc. lia.
     + constructor; [lia|constructor].
 Qed.
+
+(* ------------------------------------------------------------------ *)
+(* F. arguments, probe types, shanks processed                         *)
+(* ------------------------------------------------------------------ *)
+Lemma in_insert_u x l y : In y (insert_u x l) <-> y = x \/ In y l.
+Proof.
+  induction l as [|z t IH]; cbn [insert_u].
+  - cbn. intuition.
+  - destruct (x <? z) eqn:E1; [cbn; intuition|].
+    destruct (x =? z) eqn:E2.
+    + apply Z.eqb_eq in E2. subst z. cbn. intuition.
+    + cbn [In]. rewrite IH. intuition.
+Qed.
+
+Inductive incr : list Z -> Prop :=
+| incr_nil : incr []
+| incr_one x : incr [x]
+| incr_cons x y t : x < y -> incr (y :: t) -> incr (x :: y :: t).
+
+Lemma incr_insert x l : incr l -> incr (insert_u x l).
+Proof.
+  induction 1 as [|z|z y t Hzy Hyt IH]; cbn [insert_u].
+  - constructor.
+  - destruct (x <? z) eqn:E1; [apply Z.ltb_lt in E1; repeat constructor; assumption|].
+    destruct (x =? z) eqn:E2; [constructor|].
+    apply Z.ltb_ge in E1. apply Z.eqb_neq in E2. repeat constructor. lia.
+  - destruct (x <? z) eqn:E1; [apply Z.ltb_lt in E1; repeat constructor; assumption|].
+    destruct (x =? z) eqn:E2; [constructor; assumption|].
+    apply Z.ltb_ge in E1. apply Z.eqb_neq in E2. cbn [insert_u] in IH.
+    destruct (x <? y) eqn:E3.
+    + apply Z.ltb_lt in E3. constructor; [lia|]. constructor; assumption.
+    + destruct (x =? y) eqn:E4; [constructor; assumption|]. constructor; assumption.
+Qed.
+
+Lemma uniq_sorted_spec l : incr (uniq_sorted l) /\ forall y, In y (uniq_sorted l) <-> In y l.
+Proof.
+  induction l as [|x l [IH1 IH2]]; [split; [constructor|intros y; reflexivity]|].
+  unfold uniq_sorted in *. cbn [fold_right]. split; [apply incr_insert; exact IH1|].
+  intros y. rewrite in_insert_u, IH2. cbn. intuition.
+Qed.
